@@ -103,7 +103,9 @@ def max_phase_gap(sample, data):
     data : `~thejoker.RVData`
     """
     phase = np.sort(data.phase(sample['P']))
-    phase = np.concatenate((phase, phase))
+    # close the circle: the last gap runs from the largest phase across 1 -> 0
+    # to the smallest one
+    phase = np.concatenate((phase, phase[:1] + 1.0))
     return (phase[1:] - phase[:-1]).max()
 
 
